@@ -62,6 +62,7 @@ class Program:
         self.vals = gen.Values(rng, values, dtype)
         _, _, self.kind = gen.pick_class(self.sr, rng, self.sym, self.ferm, kind)
         self.pool = []
+        self._never_admit = []
         self.label_counter = 100
 
     # ---- value creation ---------------------------------------------------------------
@@ -350,8 +351,15 @@ class Program:
         if name == "copy_copy":
             import copy as _copy
 
-            # (a shallow copy shares its blocks with the original by the definition of copy.copy)
-            return name, [x], (lambda a: _copy.copy(a)), I(shares_by_design=True)
+            # (a shallow copy shares its blocks AND its sign table with the original by the
+            # definition of copy.copy: it is audited like any result but never becomes an
+            # operand - an in-place call on either would rewrite the other)
+            def shallow(a):
+                r = _copy.copy(a)
+                self._never_admit.append(r)
+                return r
+
+            return name, [x], shallow, I(shares_by_design=True)
         if name == "deepcopy":
             import copy as _copy
 
@@ -505,6 +513,8 @@ class Program:
         """Add array-valued results to the pool (bounded)."""
         vals = res if isinstance(res, (tuple, list)) else [res]
         for v in vals:
+            if any(v is r for r in self._never_admit):
+                continue
             if any(np.asarray(b).dtype.kind == "b" for b in getattr(v, "blocks", {}).values()):
                 continue  # boolean results (isfinite) are not operands for arithmetic
             if (is_array(v) and small_enough(v)) or is_vector(v):
